@@ -207,12 +207,15 @@ def dump(x):
 
 
 @native
-def add_next_bar(S, w, tag="next_"):
+def add_next_bar(S, w, tag="next_", future=False):
     """give the market an input frame with rows T0 (the current status) and T1 (fresh symbols); returns the T1 prices"""
     import pandas as pd
     from .worlds import aave_status, T0, T1
     m = w.market
     names = [t for t in w.tokens]
     row1 = aave_status(S, names, tag)
-    m._data = pd.DataFrame({T0: m._market_status.data, T1: row1}).T.astype(object)
+    cols = {T0: m._market_status.data, T1: row1}
+    if future:
+        cols[pd.Timestamp("2024-01-01 00:02:00")] = aave_status(S, names, "future_")      # a bar after the one under test
+    m._data = pd.DataFrame(cols).T.astype(object)
     return pd.Series({n: S.dec(f"{tag}{n}_price", 0, 10 ** 6, lo_strict=True) for n in names}, dtype=object)
